@@ -40,15 +40,13 @@ Import String.StringSyntax.
 Definition t (s : String.string) : text := text_of_string s.
 Local Open Scope string_scope.
 
-(* (c) The full statement ("never an internal error") is FALSE of the faithful model: a label used as
-   a constant index offset dies with IndexError (known finding label_as_index_offset, replayed on the
-   implementation on every run). *)
-Theorem C13_no_internal_error_refuted :
-  exists lines, MProgram.assemble [] lines = Internal E_INDEX.
-Proof. exists [t "L NOP
+(* (c) The program that used to die with an IndexError (a label as a constant index offset, repaired by
+   F43) is assembled: the 16-bit offset form with the label's address. *)
+Example C13_former_crash_assembles :
+  exists r, MProgram.assemble [] [t "L NOP
 "; t " LDA L,X
-"]. vm_compute. reflexivity. Qed.
-Print Assumptions C13_no_internal_error_refuted.
+"] = Ok r /\ r_image r = [18; 166; 137; 0; 0].
+Proof. eexists. split; vm_compute; reflexivity. Qed.
 
 (* non-vacuity: the boundary program that used to hang is assembled (16-bit form forced) *)
 Example C13_boundary_program_terminates :
